@@ -604,6 +604,27 @@ func boundaryFamilies(quick bool, add addFn) {
 		})
 	}
 
+	// every leaf of one class zero at once (an encoder that leaves out a sub-object because
+	// "its" fields are zero forgets the fields of the other classes: a home location with a
+	// zoom only, a member with a role only, ...)
+	add("zero-class", []int{xmlgen.NumKinds, int(numLeafClasses), 2}, func(r *kit.Run, c Case, d []int) {
+		kind := d[0]
+		v := fullValue(kind)
+		ls := leavesOfClass(v, leafClass(d[1]))
+		if len(ls) == 0 {
+			return
+		}
+		for _, l := range ls {
+			l.v.Set(reflect.Zero(l.v.Type()))
+		}
+		c.Desc = fmt.Sprintf("%s: every %s leaf zero, placement %d", xmlgen.KindNames[kind], leafClassNames[d[1]], d[2])
+		if d[2] == 0 {
+			anyObject(r, c, v, false)
+		} else {
+			osmContainer(r, c, between(kind, v), false)
+		}
+	})
+
 	// every string of the object carries the class at once
 	add("text-all", []int{xmlgen.NumKinds - 1, xmlgen.NumTextClasses + len(textExtra), 2}, func(r *kit.Run, c Case, d []int) {
 		kind := xmlgen.KindNode + d[0]
